@@ -10,7 +10,70 @@ from props.base import to_request, corpus_for  # noqa: F401
 
 ID = 'C03'
 LEAN_MODULES = ['PybtexModel.Props.C03']
-THEOREMS = {}
+THEOREMS = {
+    'C03_builtin_plus': 'a b + pushes a+b; short stack -> BibTeXError(pop from empty stack); non-integer operand -> TypeError (internal), never a default',
+    'C03_builtin_minus': 'a b - pushes a-b (negative results kept); short stack / ill-typed operands are errors',
+    'C03_builtin_concat': 'x y * pushes the concatenation; a missing field is the empty string; short stack / ill-typed operands are errors',
+    'C03_builtin_plus_mul_same': 'observation on the pinned code: + and * are the same Python operator',
+    'C03_builtin_gt_lt': 'a b > / a b < push 1 or 0 for a>b / a<b on integers (argument order pinned); short stack / ill-typed operands are errors',
+    'C03_builtin_gt_lt_str': '< and > on strings compare by code-point lexicographic order',
+    'C03_builtin_eq': 'a b = pushes 1/0 for equal integers or equal strings (missing = ""); integer vs string is 0; function values are outside the domain',
+    'C03_builtin_assign_global_int': "v 'name := on a global integer variable stores v and changes nothing else; wrong type -> ValueError",
+    'C03_builtin_assign_global_str': "v 'name := on a global string variable stores v (a missing field as such); wrong type -> ValueError",
+    'C03_builtin_assign_entry_int': "v 'name := on an entry integer variable writes the frame of the current entry only",
+    'C03_builtin_assign_entry_str': "v 'name := on an entry string variable (sort.key$, label ...) writes the frame of the current entry only",
+    'C03_builtin_assign_errors': ':= with a short stack, a non-variable operand or a function/field/built-in target is an error, never an assignment',
+    'C03_builtin_stack_ops': 'duplicate$ pop$ swap$ skip$ quote$ do what their names say for values of any type; short stacks are BibTeXErrors',
+    'C03_builtin_empty': 'empty$ pushes 1 iff the string is missing, empty or white space only',
+    'C03_builtin_missing': 'missing$ pushes 1 exactly for a missing-field value, 0 for every other value',
+    'C03_builtin_chr_to_int': 'chr.to.int$ pushes the code point of a one-character string; any other length is a BibTeXError',
+    'C03_builtin_int_to_chr': 'int.to.chr$ pushes chr(n) for 0 <= n < 0x110000, BibTeXError outside',
+    'C03_builtin_int_to_str': 'int.to.str$ pushes the decimal representation',
+    'C03_builtin_cite_type_preamble': 'cite$ pushes the current key as spelled in the citation list, type$ the entry type, preamble$ the concatenated preamble',
+    'C03_builtin_write': 'write$ appends its operand to the output buffer and emits nothing',
+    'C03_builtin_newline': 'newline$ emits wrap(buffer) and "\\n" and clears the buffer; the stack is untouched',
+    'C03_builtin_warning_top_stack': 'warning$ reports its operand; top$ pops and prints one value; stack$ prints and empties the whole stack top first',
+    'C03_builtin_substring': 's start len substring$ pushes the documented substring (Spec.substring via C12_substring_spec) for all integers; operand order and error cases pinned',
+    'C03_builtin_text_length': 'text.length$ pushes bibtexLen (C12) or raises the nesting error',
+    'C03_builtin_text_length_spec': 'with C12_len_spec: text.length$ pushes the reference text length (braces not counted, special character once)',
+    'C03_builtin_text_prefix': 's n text.prefix$ pushes bibtexPrefix s n (C12)',
+    'C03_builtin_text_prefix_spec': 'with C12_prefix_len / C12_prefix_nonpos: the pushed prefix has text length min(n, len) for n >= 0 and is empty for n <= 0',
+    'C03_builtin_purify_width_num_names': 'purify$ / width$ / num.names$ push bibtexPurify / bibtexWidth over the regenerated table / the number of " and "-separated names',
+    'C03_builtin_purify_spec': 'with C12: a purified string consists of letters, digits and blanks and purify$ is idempotent on it',
+    'C03_builtin_change_case': 'change.case$ selects the conversion by the lower-cased first character of the mode (t, l, u); empty mode / other letter are BibTeXErrors',
+    'C03_builtin_change_case_spec': 'with C12_case_letters: change.case$ changes nothing but the case of letters (closed special characters)',
+    'C03_builtin_add_period': 'add.period$ appends "." unless the string is empty or its last non-"}" character is . ? ! (three shapes covering every string); a missing field stays missing',
+    'C03_builtin_format_name': 'names n fmt format.name$ formats the n-th name with formatName (C11); n outside 1..count warns and pushes ""; malformed format is a syntax error',
+    'C03_builtin_format_name_spec': 'with C11_matches_spec: the pushed string is the outcome of the reference rule Spec.formatName',
+    'C03_builtin_newline_short': 'with C19_short_identity: a buffered text of at most 79 characters is emitted as one right-stripped line',
+    'C03_builtin_call_type': 'call.type$ executes the function named like the entry type; undefined type: warning text pinned, then default.type if defined, else nothing',
+    'C03_builtin_table': 'summary: whenever the documented table Doc (Spec/BstSem.lean) of the stack-only built-ins says b turns operands args into res, a call on a stack starting with args replaces them by res and changes nothing else',
+    'C03_if': 'p f2 f1 if$ executes f2 if p > 0 else f1 on the stack below the three operands; short / ill-typed stacks are errors',
+    'C03_while_unfold': 'while$ = execute p; pop n; n <= 0 stop, else execute f and repeat: one-step equation with fuel and the fuel-free unfolding law',
+    'C03_fuel_mono': 'a finished run (state or non-fuel error) is unchanged by more fuel, for all six mutually recursive functions',
+    'C03_deterministic': 'two finished runs of the same code from the same state agree, whatever the fuel',
+    'C03_exec_literals': 'literals push themselves, { } pushes the function, \'name pushes the variable (undefined -> BibTeXError), a name is executed (undefined -> BibTeXError); bodies run left to right',
+    'C03_exec_variable': 'executing a global variable pushes its value, an entry variable the value in the current entry frame (default 0 / ""), a field its value or a missing field, a function runs its body',
+    'C03_iterate_order': 'ITERATE {f} is the left fold of "make the entry current; execute f" over the citation list in order',
+    'C03_reverse_order': 'REVERSE {f} is the same fold over the reversed citation list',
+    'C03_ready': 'READ establishes "database present and every citation in it" (missing entries reported and dropped) without touching variables, entry variables or output; every command preserves it',
+    'C03_execute': 'EXECUTE {f} executes f once',
+    'C03_strLt_spec': 'the string comparison is code-point lexicographic order, a strict total order (irreflexive, transitive, trichotomous)',
+    'C03_sort': 'after SORT the citation list is a permutation of the old one, non-decreasing in sort.key$ (never assigned = ""), stable, nothing else changes; SORT succeeds when all assigned keys are strings',
+    'C03_sort_unique': 'sortedness + stability determine the sorted list uniquely',
+    'C03_scoping': 'any execution preserves the Frame: current entry, database, citations, macros, preamble; entry variables of every other entry; every name keeps its object (only values of global variables change); output only through write/newline events; reports / print-outs only appended',
+    'C03_scoping_entry_store': 'an entry-variable assignment for entry k is read back for k and changes no other variable of k and no variable of another entry',
+    'C03_scoping_only_assign': 'only := touches variables: every other built-in that does not execute code leaves the variable table and all entry variables unchanged; := on a global changes the binding of that name (up to case) only',
+    'C03_scoping_iterate': 'a whole ITERATE/REVERSE round keeps database, citations, macros, preamble, persists variables and leaves entry variables of unlisted entries untouched',
+    'C03_scoping_commands': 'every command: output only through events, reports only appended, database and citation list (up to order) kept except by READ; SORT/READ/MACRO do not touch the variable table; ITERATE/REVERSE/EXECUTE only change values of globals',
+    'C03_declare_entry': 'ENTRY declares exactly its fields, crossref, its integer and its string entry variables (all other names unchanged, nothing else changes) when the names are fresh and distinct up to case; otherwise BibTeXError',
+    'C03_declare_function': 'FUNCTION binds a fresh name to its body; redeclaring any name is a BibTeXError',
+    'C03_declare_globals': 'INTEGERS / STRINGS bind each listed name to a fresh global 0 / "" (overwriting an existing binding, as the pinned code does); all other names unchanged',
+    'C03_declare_macro': 'MACRO defines the macro (last definition wins) and changes nothing else',
+    'C03_output': 'the .bbl text of run is the concatenation of the emitted lines = render of the run\'s write/newline events: each newline$ contributes wrap(pending text) + "\\n", text after the last newline$ is discarded',
+    'C03_output_render': 'unfolding of the event semantics: write accumulates, newline emits wrap(pending) + "\\n", events extend the emitted text',
+    'C03_output_only_write_newline': 'no built-in other than write$ / newline$ (and the three that execute code) touches the emitted lines or the buffer',
+}
 RULE = ('well-typed straight-line programs: every sequence of up to the tier length of typed units (literals from the operand pool, '
         'fields incl. a missing one, every built-in with its operand shapes, global and entry variables) that type-checks from the empty '
         'stack, executed per entry by ITERATE and followed by a typed dump of the stack; seeded random structured programs (nested function '
@@ -323,5 +386,19 @@ def gen_cases(tier, rng, info):
     return cases
 
 
-LEVEL_TEXT = 'filled when the proofs are registered'
-LEVEL_NOTE = ''
+LEVEL_TEXT = ('Machine-checked proof (Lean 4) about an executable model of the BST interpreter (pybtex/bibtex/interpreter.py + builtins.py) for EVERY '
+              'state, stack content and program: one theorem per built-in (all 37) giving the exact stack / output / state change on the documented '
+              'operand shapes with frame conditions, BibTeXError on too short stacks and an (out-of-domain) TypeError on ill-typed operands, never a '
+              'default; if$ and the unfolding law of while$; fuel monotonicity and determinism of the six mutually recursive execution functions; '
+              'ITERATE / REVERSE as the left fold over the citation list in order / in reverse; SORT = the unique stable sort by sort.key$ under '
+              'code-point lexicographic order; scoping (entry variables of other entries untouched, global variables persist, functions never '
+              'redefined by execution); ENTRY / INTEGERS / STRINGS / FUNCTION / MACRO declare exactly what they list; the .bbl text is the rendering of '
+              'the run\'s write$/newline$ events. The string built-ins are tied to the theorems of C12 (substring$, text.length$, text.prefix$, purify$, '
+              'change.case$), C11 (format.name$) and C19 (newline$). The model is tied to the code by a correspondence check that is exhaustive over '
+              'well-typed straight-line programs of 90 typed units up to the tier length, plus seeded random structured programs and the golden styles.')
+LEVEL_NOTE = ('Trusted: Lean kernel; axioms propext/Classical.choice/Quot.sound only; the hand-written model (Model/Interp.lean) corresponds to the '
+              'Python code only as far as the differential check explores; a value pushed by \'name is a reference by name; ill-typed programs '
+              '(Python TypeError/AttributeError where BibTeX prints a message) are outside the domain and the model only promises an internal error '
+              'there (for a stack that is both too short and ill-typed the model may report the type error where Python reports the empty stack). '
+              'Observations, not violations of the property as stated: the pinned code implements + and * by one Python operator (C03_builtin_plus_mul_same) '
+              'and INTEGERS / STRINGS silently overwrite an existing binding (C03_declare_globals).')
